@@ -389,6 +389,9 @@ pub fn run(cx: &mut Ctx) {
     if cx.prop == "C06" {
         super::jhf8::run_f8(cx);
     }
+    if cx.arg("huge").map(|v| v == "1").unwrap_or(false) && cx.shard == 0 && !cfg!(miri) {
+        super::counters::run_family_huge(cx, menu[0].fam);
+    }
     // "all messages of all lengths": a few cases per run hash as if a very long prefix had been
     // absorbed (length counter fast-forwarded through hook H2 on the implementation and on the
     // reference alike), so that counter words and length fields beyond 2^32 are exercised too
@@ -405,6 +408,9 @@ pub fn run(cx: &mut Ctx) {
 
 pub fn replay(cx: &mut Ctx, desc: &str) {
     let d = Desc::parse(desc);
+    if d.get("k") == Some("huge") {
+        return super::counters::replay(cx, desc);
+    }
     if d.get("f8").is_some() {
         return super::jhf8::replay(cx, desc);
     }
